@@ -16,7 +16,9 @@ import (
 var goagOwned = []string{"components.go", "handler.go", "router.go", "spec_file.go", "client.go"}
 
 func runC01S3(r *Report) {
-	s3, err := BuildS3(S3Options{TemplateDebug: false})
+	gdir, gclean := thoroughCorpusFor(r, "C01")
+	defer gclean()
+	s3, err := BuildS3(S3Options{TemplateDebug: false, ExtraCorpus: gdir})
 	if err != nil {
 		r.Break("S3 build: %v", err)
 		return
